@@ -358,10 +358,10 @@ func (c *Ctx) bin(op Op, a, b *Term) *Term {
 			}
 		}
 		// distribute over an ite tree with constant leaves (table lookups)
-		if constLeaves(b, 16) && !constLeaves(a, 16) {
+		if constLeaves(b, 300) && !constLeaves(a, 300) {
 			return c.mapLeaves(b, func(k *Term) *Term { return c.bin(OpMul, a, k) })
 		}
-		if constLeaves(a, 16) && !b.IsConst() {
+		if constLeaves(a, 300) && !b.IsConst() {
 			return c.mapLeaves(a, func(k *Term) *Term { return c.bin(OpMul, b, k) })
 		}
 		if !b.IsConst() && a.ID > b.ID {
